@@ -131,10 +131,17 @@ Theorem C17_traffic_rate_partial : forall cp a r,
 Proof. exact c17_traffic_rate_rest. Qed.
 Print Assumptions C17_traffic_rate_partial.
 Example C17_traffic_rate_instance :
-  c17_ec (CapFba true) (TrafficRate 65000 1000) (codes "traffic-rate:65000:1000") /\
-  c17_ec (CapFba true) (TrafficRate 1 16777215) (codes "traffic-rate:1:16777215") /\
-  c17_ec (CapFba true) (TrafficRate 0 0) (codes "traffic-rate:0:0").
-Proof. repeat split; try (vm_compute; reflexivity); eexists; split; vm_compute; reflexivity. Qed.
+  c17_ec (CapFba true) (TrafficRate 65000 1000) (codes "traffic-rate:65000:1000").
+Proof.
+  split; [vm_compute; reflexivity|].
+  exists [ItS 32774 (codes "65000:1000")]. split; vm_compute; reflexivity.
+Qed.
+Example C17_traffic_rate_instance_max :
+  c17_ec (CapFba true) (TrafficRate 1 16777215) (codes "traffic-rate:1:16777215").
+Proof.
+  split; [vm_compute; reflexivity|].
+  exists [ItS 32774 (codes "1:16777215")]. split; vm_compute; reflexivity.
+Qed.
 
 (** es-import / router-mac: full statements; proved: the decoder renders the RFC octets of every
     MAC as XX-XX-XX-XX-XX-XX.  MISSING: acceptance and re-encoding of that text for all MACs
@@ -151,10 +158,18 @@ Theorem C17_router_mac_partial : forall m,
   ec_parse (ref_ec (RouterMac m)) = Ok [Txt (codes "router-mac" ++ 58 :: show_mac (be 6 m))].
 Proof. exact c17_router_mac_parse. Qed.
 Print Assumptions C17_router_mac_partial.
-Example C17_mac_instance :
-  c17_ec (CapFba true) (EsImport 118713416925) (codes "es-import:00-1B-AA-BB-CC-DD") /\
+Example C17_es_import_instance :
+  c17_ec (CapFba true) (EsImport 118828551389) (codes "es-import:00-1B-AA-BB-CC-DD").
+Proof.
+  split; [vm_compute; reflexivity|].
+  exists [ItS 1538 (codes "00-1B-AA-BB-CC-DD")]. split; vm_compute; reflexivity.
+Qed.
+Example C17_router_mac_instance :
   c17_ec (CapFba true) (RouterMac 281474976710655) (codes "router-mac:FF-FF-FF-FF-FF-FF").
-Proof. repeat split; try (vm_compute; reflexivity); eexists; split; vm_compute; reflexivity. Qed.
+Proof.
+  split; [vm_compute; reflexivity|].
+  exists [ItS 1539 (codes "FF-FF-FF-FF-FF-FF")]. split; vm_compute; reflexivity.
+Qed.
 
 (** communities: every 32-bit value, the well-known names included *)
 Theorem C17_community : forall v, v < 4294967296 ->
